@@ -271,7 +271,7 @@ impl std::ops::Deref for AlignedVec {
 impl Engine for Emplace {
     const NAME: &'static str = "emplace";
 
-    fn run(&self, s: &dyn ShapeDyn, args: &Args) -> Accs {
+    fn run(&self, s: &'static dyn ShapeDyn, args: &Args) -> Accs {
         let id = s.id();
         let fam = family(id);
         let d = s.desc();
@@ -431,7 +431,7 @@ impl Engine for Emplace {
         m
     }
 
-    fn replay(&self, s: &dyn ShapeDyn, case: &serde_json::Value) -> bool {
+    fn replay(&self, s: &'static dyn ShapeDyn, case: &serde_json::Value) -> bool {
         let d = s.desc();
         let a = d.align();
         let avail = d.min_size() + 3 * a + 12;
